@@ -170,6 +170,22 @@ func c19Gen(r *Run, rng *gen.Rng, corpus []string) *c19Inv {
 		}
 		gw.Main, main = nm, nm
 	}
+	if rng.Chance(8) {
+		// an accepted program with unusual bytes where the lexer does not care: a comment in
+		// Latin-1 or with a NUL byte, or a multi-byte character that straddles a power-of-two
+		// offset (the edge of a buffer somebody might read the file through)
+		var pre []byte
+		switch rng.Intn(4) {
+		case 0:
+			pre = []byte("// caf\xe9 na\xefve\n")
+		case 1:
+			pre = []byte("// nul \x00 byte\n")
+		default:
+			b := rng.Pick2([]int{512, 1024, 1024, 4096})
+			pre = []byte("// " + strings.Repeat("x", b-1-3) + "ü tail\n")
+		}
+		gw.Set(main, append(pre, gw.Get(main)...))
+	}
 	if rng.Chance(30) {
 		victim := main
 		if len(gw.Closure) > 1 && rng.Chance(30) {
